@@ -19,10 +19,7 @@ func concCheck(c *report.Check, prop string, kv bool) {
 		os.Exit(0)
 	}
 	scns := concScenarios(c.Thorough())
-	bound := 2
-	if c.Thorough() {
-		bound = 3
-	}
+	bound := 2 // bound 3 is ~100x the schedules (measured: >25 min for the 15 thorough scenarios): thorough widens the scenario set instead
 	ns := 8
 	if c.Thorough() {
 		ns = 48
